@@ -4,6 +4,7 @@ import (
 	"fmt"
 	"go/ast"
 	"go/token"
+	"go/types"
 	"regexp"
 	"strings"
 
@@ -144,23 +145,92 @@ func checkC39(c *Check) {
 		c.Ob("workers/created-bounded-by-create", "workerPool.Get", ok, r.pos(ir.Info.Decl.Pos()),
 			fmt.Sprintf("wait loop `for !(closed || len(free)>0 || created<create) { cond.Wait() }` at #%d, closed test #%d, reuse of a free worker #%d, created++ #%d (only reached when created < create)", loopIdx, closedIdx, freeIdx, incIdx))
 	}
-	// created-- only where a worker channel is closed
-	for _, m := range []string{"Put", "gcLocked", "Close"} {
-		ir := r.ir(P + ".workerPool." + m)
-		if ir == nil {
+	// retiring a worker: closing its channel (the goroutine then exits) and taking it out of `created` go together, once
+	// each, in the same block — in every function of the package, not in a fixed list: a decrement elsewhere (for
+	// example when the goroutine exits) counts the same worker twice and lets Get start workers beyond the limit
+	isWorkerChanClose := func(cn *CallN) bool {
+		if cn.Builtin != "close" || len(cn.ArgExprs) != 1 {
+			return false
+		}
+		return true
+	}
+	retireSites, decSites := 0, 0
+	for _, name := range sortedKeys(r.funcs) {
+		fi := r.funcs[name]
+		if !strings.HasPrefix(name, P+".") || fi.Decl.Body == nil {
 			continue
 		}
-		walkBlock(ir.Body, nil, func(n Node, gs []Guard) {
+		ir := buildFuncIR(fi, r.co.allFuncs(), r.co.Fset)
+		isDec := func(n Node) bool {
 			a, ok := n.(*AssignN)
-			if !ok || len(a.LHS) != 1 || a.LHS[0] != "item.created" {
-				return
+			if !ok || len(a.LHS) != 1 || !strings.HasSuffix(a.LHS[0], ".created") || (a.Tok != token.DEC && a.Tok != token.SUB_ASSIGN) || len(a.LE) != 1 {
+				return false
 			}
-			if a.Tok == token.DEC || a.Tok == token.SUB_ASSIGN {
-				closes := strings.Contains(irText(ir), "call close recv=(")
-				c.Ob("workers/created-decremented-with-close", "workerPool."+m, closes, r.pos(a.Pos), "created is decremented only in functions that close the worker's channel (the goroutine then exits)")
+			sel, ok := a.LE[0].(*ast.SelectorExpr)
+			if !ok {
+				return false
 			}
-		})
+			return namedStructName(fi.Pkg.TypesInfo.TypeOf(sel.X)) == "workerPool"
+		}
+		closesWorker := func(cn *CallN) bool {
+			if !isWorkerChanClose(cn) {
+				return false
+			}
+			t := fi.Pkg.TypesInfo.TypeOf(cn.ArgExprs[0])
+			ch, ok := t.Underlying().(*types.Chan)
+			return ok && namedStructName(ch.Elem()) == "workerWork"
+		}
+		inFunc := 0
+		var blocks func(b Block)
+		blocks = func(b Block) {
+			decs, closes := 0, 0
+			var pos token.Pos
+			for _, n := range b {
+				switch n := n.(type) {
+				case *AssignN:
+					if isDec(n) {
+						decs++
+						pos = n.Pos
+					}
+				case *CallN:
+					if closesWorker(n) {
+						closes++
+						pos = n.Pos
+					}
+				case *LoopN:
+					inLoop := false
+					for _, m := range n.Body {
+						if cn, ok := m.(*CallN); ok && closesWorker(cn) {
+							inLoop = true
+						}
+					}
+					if inLoop {
+						closes++
+						pos = n.Pos
+					} else {
+						blocks(n.Body)
+					}
+				case *IfN:
+					blocks(n.Then)
+					blocks(n.Else)
+				case *SwitchN:
+					for _, cs := range n.Cases {
+						blocks(cs.Body)
+					}
+				case *ClosureN:
+					blocks(n.Body)
+				}
+			}
+			if decs+closes > 0 {
+				retireSites++
+				inFunc++
+				decSites += decs
+				c.Ob("workers/retire-closes-and-uncounts-once", fi.Name()+fmt.Sprintf("#%d", inFunc), decs == closes, r.pos(pos), fmt.Sprintf("%s: in one block, worker channels closed (a loop over the free list counts once): %d, decrements of workerPool.created: %d — they must pair up", fi.Name(), closes, decs))
+			}
+		}
+		blocks(ir.Body)
 	}
+	c.Floor("workers/retire-closes-and-uncounts-once", 3)
 	// memory
 	if ir := r.ir(P + ".Server.acquireRequestSema"); ir != nil {
 		txt := irText(ir)
